@@ -742,6 +742,8 @@ class Interp:
     def norm_index(self, i, n, what='list'):
         """Python index normalisation with IndexError; returns index in [0, n)."""
         i = self._num(i)
+        if isinstance(i, int) and isinstance(n, int) and self.spec_mode and not (-n <= i < n):
+            return i        # inside a specification an out-of-range selection is an unspecified value, not an exception
         if isinstance(i, int) and isinstance(n, int):
             nowrap = self.frames and getattr(getattr(self.frames[-1], 'funcnode', None), '_pyx_flags', {}).get('wraparound') is False
             if (0 if nowrap else -n) <= i < n:
